@@ -45,6 +45,12 @@ def execute(row, seed, policy=None):
                 'reaction': LoginDisconnect, 'decoder': struct.error}[origin]
     run = Run(policy=policy or vsched.SequentialPolicy(seed), seed=seed)
     obs = {'log': [], 'final': ['no', 0], 'reuse': None, 'slot_after': None}
+    # variant: the fault strikes during the status query that precedes a login when several versions are allowed (a
+    # listener on the status response raises), with an exception type from the I/O family - it is a listener's
+    # exception like any other, not an "unanswered status query"
+    status_phase = origin == 'early' and seed % 5 in (1, 2)    # (an ordinary listener runs after the reaction has already begun the login)
+    if status_phase:
+        orig_cls = (ConnectionResetError, BrokenPipeError, OrigError)[(seed // 5) % 3]
 
     def kind(exc):
         if isinstance(exc, ReplError):
@@ -58,7 +64,9 @@ def execute(row, seed, policy=None):
     def factory(idx, sess):
         sc = TracingScript(run, prof, [])
         steps = [('expect', 2)]
-        if idx == 0:
+        if status_phase and (idx == 0 or (sc.parsed and sc.parsed[0].get('next') == 1)):
+            steps += [('send', prof.status_response(P.status_json(protocol=VERSION, name='s')))]
+        elif idx == 0:
             if origin == 'reaction':
                 steps += [('send', prof.login_disconnect('{"text":"no"}'))]
             else:
@@ -92,8 +100,12 @@ def execute(row, seed, policy=None):
             def bad_exit():
                 raise OrigError('exit callback failure')
             kw['handle_exit'] = bad_exit
-        c = run.make_connection(allowed_versions={VERSION}, **kw)
-        if origin in ('early', 'listener'):
+        c = run.make_connection(allowed_versions=({VERSION, 340} if status_phase else {VERSION}), **kw)
+        if status_phase:
+            def boom_status(pkt):
+                raise orig_cls('listener failure during the status query')
+            c.register_packet_listener(boom_status, clientbound.status.ResponsePacket, early=(origin == 'early'))
+        elif origin in ('early', 'listener'):
             from minecraft.networking.packets import serverbound
             with_pending = seed % 3 == 0        # the failing listener had queued a packet that an outgoing listener dislikes
 
